@@ -42,6 +42,30 @@ CHECKS = {
         note="Runs in the val/rel builds where sw-composite returns the offending value instead of asserting; the known-finding signature requires mode Color and an invalid formula-of-record output for that exact (source, destination) pair.",
         ref="DESIGN.md section 3, C18",
     ),
+    "C10": dict(
+        technique="fresh-twin history differential (exact) over long random call histories, steered by the verif_state hook; the same histories under AddressSanitizer and Miri in the thorough tier",
+        text="After every call of long random histories on one DrawTarget the call is replayed on a fresh target holding the same pixels, transform and clip stack and the pixels are compared bit for bit; histories are biased towards no-op draws and towards followers that make leftover cursor/rasteriser state visible. Held on the histories run; thorough adds ASan and Miri runs of the same workload (a sanitizer report is a violation).",
+        note="The twin re-pushes clip paths pre-transformed under the identity (relies on C11's bit-identity). Layer groups are compared as one unit. The hook never produces a verdict.",
+        ref="DESIGN.md section 3, C10",
+    ),
+    "C11": dict(
+        technique="exact differentials: pre-transformed path vs transform on the target; identity vs T for device-space calls; singular-T no-op monitor; transform-preservation monitor",
+        text="fill under T vs fill of Path::transform(T) under the identity must be bit-identical (all op kinds, AA modes, under clips and in layers); singular T must leave every pixel unchanged for fill/stroke/fill_rect/draw_image; push_clip_rect, mask(solid), copy_surface, blend_surface* must not depend on T; clear/pop_layer must leave get_transform() bitwise unchanged. Sources and strokes under T are judged by the C12/C13/C04 oracles, which draw random transforms. Held on what was run.",
+        note="mask() with a solid source under a singular transform is not asserted (the statement is silent on which clause wins).",
+        ref="DESIGN.md section 3, C11",
+    ),
+    "C14": dict(
+        technique="exact differential between the optimised and the general route on identical canary destinations",
+        text="fill_rect (integer rects incl. zero/negative/off-surface) vs fill(PathBuilder::rect), with vs without a covering clip rect, clear with vs without a covering clip, draw_image_at vs filling the image rectangle: pixel buffers must be identical for all 28 modes, all source kinds, alpha and both AA modes. Held on the pairs run.",
+        note="Both routes run in the same library; the check decides agreement, not correctness of either (that is C03's job).",
+        ref="DESIGN.md section 3, C14",
+    ),
+    "C15": dict(
+        technique="reference block-transfer model evaluated on every destination pixel; small space enumerated completely in the thorough tier; ASan and Miri runs for the memory side",
+        text="copy_surface, blend_surface and blend_surface_with_alpha are compared per destination pixel with 'source pixel src_rect.min + (q - dst) lands on q iff it lies in src_rect and in the source'; sizes 0..3, rect corners in [-2,5], dst in [-4,5] (sampled in quick, all 3.1e8 combinations in thorough) plus larger and far-away cases; transform, clip and an open layer on the destination must be ignored. Held on what was run.",
+        note="blend_surface is exact against the formula of record; blend_surface_with_alpha uses the C03 SrcOver rule (3 LSB between the exact end points).",
+        ref="DESIGN.md section 3, C15",
+    ),
 }
 
 NOT_BUILT_REASON = "check not built yet in this round (planned, see DESIGN.md section 3); not claimed"
